@@ -325,6 +325,9 @@ def monFire (c : Cfg) (pre : PSnap) (f : PFire) : Option String :=
       match epOf post id, (match k with | .sr => c.sr | .fp => c.fp) with
       | some ep, some a =>
         if justified k post a ep then none
+        else if k = .sr ∧ decide (a.vol ≤ ep.rv) ∧ decide (a.minHosts ≤ (considered post a.vol).length) ∧ (considered post a.vol).all (fun x => decide (0 < x.rv))
+                ∧ variance (considered post a.vol) = 0 then
+          some s!"endpoint {id} ejected by sr although all {(considered post a.vol).length} considered endpoints have the same success rate {ep.inS}/{ep.rv} [binary64 rounds the mean above it]"
         else if k = .sr ∧ srTight post a then none
         else some s!"endpoint {id} ejected by {AlgK.str k} without request volume / criterion (calls {ep.inS}+{ep.inF})"
       | _, _ => some s!"endpoint {id} ejected by {AlgK.str k} which is not configured / not a current endpoint"
